@@ -446,9 +446,12 @@ def run_graphql_break(stop_after):
             if len(got) == stop_after:
                 break
         await results.aclose()
-        await asyncio.sleep(0.06)
+        for _ in range(60):                  # the cancellation needs a few loop turns, however loaded the machine is
+            await asyncio.sleep(0.03)
+            if state['stopped']:
+                break
         p1 = state['produced']
-        await asyncio.sleep(0.06)
+        await asyncio.sleep(0.1)
         res = {'got': len(got), 'cancels': [sid for (n, ty, sid) in wire if n == 'client' and ty is FrameType.CANCEL],
                'stopped': state['stopped'], 'still_producing': state['produced'] != p1,
                'open': [sorted(server._stream_control._streams), sorted(client._stream_control._streams)]}
